@@ -174,8 +174,13 @@ class LazyTermMap:
             if sym in self._term_map:
                 return self._term_map[sym]
 
-        invertable_subsets = [i for i, (_, perms) in enumerate(splitted)
-                              if len(perms) > 1]
+        # reversing the order of the permutations in a subset only gives
+        # the same permutation if the permutations commute, i.e., if they
+        # are pairwise disjoint (otherwise the inverse is obtained).
+        invertable_subsets = [
+            i for i, (_, perms) in enumerate(splitted) if len(perms) > 1
+            and len({s for p in perms for s in p}) == 2 * len(perms)
+        ]
         for n_inverts in range(1, len(invertable_subsets)+1):
             for to_invert in combinations(invertable_subsets, n_inverts):
                 inv_perms = []
